@@ -10,6 +10,50 @@ def claim(text, ref, note, technique=TECH):
 
 
 CLAIMED = {
+    'C01': claim('Coq proofs over the node model for every event history: automatic actions (auto start, conciliation, '
+                 'failure jobs, auto stop) are only emitted while the local instance is the published Master; the Master '
+                 'selection rule (declared Masters still recognised, else running instances; core members first; lowest '
+                 'nick) with the "kept" corollary; check_master characterisation; cluster-level agreement core '
+                 '(quiescent_agreement: exact views + consistent Master check + SM-local => one Master, member of the '
+                 'group, seen RUNNING by all, self-acknowledged). Tied to the real classes by the node suite and by the '
+                 'cluster suite (2-4 real instances, fault prefix + quiet rounds, Coq agreement checker on the last '
+                 'observed state).', 'DESIGN.md §5 C01',
+                 'PARTIAL: "ends up" (liveness) is only observed on bounded quiet rounds, not proved for arbitrary '
+                 'asynchronous schedules; view exactness at quiescence is a hypothesis of the agreement theorem.'),
+    'C02': claim('Coq proofs over the node model for every event history: every published change of the Supvisors '
+                 'state is an edge of the reflected transition table, which is included in the documented graph; FINAL '
+                 'terminal, RESTARTING/SHUTTING_DOWN only to FINAL; a non-Master enters a Master-driven state only when '
+                 'its view of the Master is in that state (or beyond, for DISTRIBUTION); Master-driven states entered '
+                 'with a Master seen RUNNING under named hypotheses (SM-local peer payloads, no USER option, strategy not '
+                 'SHUTDOWN) with refutation witnesses for each hypothesis.', 'DESIGN.md §5 C02',
+                 'Known findings: SHUTTING_DOWN by the SHUTDOWN strategy without Master; USER option adopting a Master '
+                 'not seen RUNNING.'),
+    'C05': claim('Coq proofs: conflict detection iff a managed process runs on >= 2 instances; for each of the six '
+                 'strategies the exact stop/restart request set (never outside a conflict), SENICIDE/INFANTICIDE keeper by '
+                 'uptime with Python tie-breaking; conflicts cleared after the acknowledgements (via the C11 model); '
+                 'OPERATION/CONCILIATION decisions; model = real conciliate_conflicts / Context.conflicts on generated '
+                 'conflicts.', 'DESIGN.md §5 C05',
+                 'Hypothesis H_c05 (running set = running-like copies); known finding stopping-copy.'),
+    'C06': claim('Coq proofs for every sequence of failure notifications / triggers / aborts: exclusion invariant of the '
+                 'four job sets, precedence STOP_APPLICATION > RESTART_APPLICATION > RESTART_PROCESS > CONTINUE with '
+                 'promotion, single action per application, deferral while jobs are in progress, planned commands left '
+                 'alone, Master-only; model = real RunningFailureHandler / on_instances_invalidation / FSM feed points.',
+                 'DESIGN.md §5 C06', 'Known findings F9 (processes lost with the Master), F10 (RESTART dropped in ELECTION).'),
+    'C12': claim('Coq proofs over a replication model (receiver rules of Context + cluster with FIFO channels and '
+                 'snapshot handshakes): under the boolean schedule predicate clean (no event lost in a handshake window) '
+                 'every node holds the true state of every process of each instance it sees RUNNING whenever the channel '
+                 'is empty; pairwise agreement; no residue for STOPPED instances; events only from admitted peers (C13 '
+                 'process-plane clause); refutation witnesses for the three handshake windows, replayed on the real '
+                 'classes.', 'DESIGN.md §5 C12',
+                 'PARTIAL: agreement is proved under clean; known finding handshake-window-event-lost.'),
+    'C16': claim('Coq proofs: the node model never returns an exception on well-formed nodes for any event allowed by '
+                 'wf_event (and each excluded event does crash: necessity), process status never crashes on well-formed '
+                 'histories (C11), receiver and cluster replication models never crash (C12), handler and conciliation '
+                 'models total (C05/C06); exceptions are observables of every driver, so a new raise site breaks the '
+                 'correspondence with a concrete event sequence.', 'DESIGN.md §5 C16',
+                 'Bounded by model coverage: web UI, supvisorsctl, statistics collector, external publishers not '
+                 'modelled. Known findings: set_state livelock under inconsistent synchro options + RESYNC; XML-RPC with '
+                 'a non-string namespec (C17).'),
     'C07': claim('Coq proofs over the node model (every event history, by induction): per-event instance discipline '
                  '(documented instance graph, local instance never ISOLATED, ISOLATED absorbing), completeness and '
                  'accuracy of failure detection in local-tick counts (live_peer_never_lost, window_formulation), '
